@@ -45,7 +45,8 @@ let tarball_of m =
           Prev (n_of_int (int_of_string (String.sub s 0 (l-1))), s.[l-1] = 'o'));
     t_sig_ok = (get m "sig" = "ok");
     t_members_ok = not (List.mem tam ["dotdot"; "deepdot"; "abs"; "symlink"; "hardlink"; "tierb"; "nomanifest"]);
-    t_digest_ok = not (starts "dig" tam || tam = "swapm" || tam = "nosrc");
+    t_digest_ok = not (starts "dig" tam || tam = "swapm" || tam = "nosrc" || tam = "duplr" || tam = "dupsr"
+                       || (tam = "dupman" && (match arts with a0 :: a1 :: _ -> a0.a_content <> a1.a_content | _ -> false)));
     t_hook_ok = (get m "hook" = "n");
     t_arts = arts }
 let opts_of m = {
@@ -63,13 +64,16 @@ let show_res = function
   | RCrash -> "crash" | RRbOk -> "rb:ok" | RRbErr -> "rb:err" | RCleared -> "cleared" | REdited -> "edited"
 let show_ver = function MonNone -> "-" | MonOk -> "ok" | MonMixed -> "STALE" | MonNa -> "na"
 let show_mon = function MonNone -> "-" | MonOk -> "ok" | MonMixed -> "MIXED" | MonNa -> "na"
-let observe ?(ver="-") w res mon =
+let observe ?(ver="-") ?(rm="-") w res mon =
   let ph = match w.jr with None -> "none" | Some j -> show_phase j.j_phase in
   let sn = List.filter (fun v -> match w.snaps (n_of_int v) with
       | Some d -> d.s_meta <> None | None -> false) (List.init 64 (fun i -> i)) in
   let sns = if sn = [] then "-" else String.concat "+" (List.map string_of_int sn) in
   let fsd = String.concat "," (List.init npaths (fun p -> spec_of_file (w.fs (n_of_int p)))) in
-  Printf.sprintf "%s j=%s cur=%d sn=%s fs=%s mon=%s ver=%s" res ph (int_of_n w.cur) sns fsd mon ver
+  let ax = String.concat "," (List.init npaths (fun p -> spec_of_file (w.fs (n_of_int (100 + p))))) in
+  let rv = String.concat "," (List.init npaths (fun p ->
+      match resolve w.fs (n_of_int p) (nat_of_int 16) with Some c -> string_of_int (int_of_n c) | None -> "x")) in
+  Printf.sprintf "%s j=%s cur=%d sn=%s fs=%s ax=%s rv=%s mon=%s ver=%s rm=%s" res ph (int_of_n w.cur) sns fsd ax rv mon ver rm
 let rec split_ops toks cur acc = match toks with
   | [] -> List.rev (if cur = [] then acc else List.rev cur :: acc)
   | ";" :: r -> split_ops r [] (if cur = [] then acc else List.rev cur :: acc)
@@ -105,7 +109,7 @@ let () =
             | "edit" :: r -> let m = kv r in OpEdit (n_of_int (int_of_string (get m "p")), file_of_spec (get m "f"))
             | _ -> failwith "badop" in
           let (w', (r, mo)) = step v !w opv in
-          w := w'; observe ~ver:(show_ver (step_ver opv w' r)) w' (show_res r) (show_mon mo)) ops in
+          w := w'; observe ~ver:(show_ver (step_ver opv w' r)) ~rm:(show_mon (step_res opv w' r)) w' (show_res r) (show_mon mo)) ops in
       if segs = [] then print_endline (observe !w "init" "-")
       else print_endline (String.concat " | " segs)
     | _ -> print_endline "badline"
